@@ -88,6 +88,27 @@ def elementK [Elem K] (E G : K) (nodes : Pts K) (A Iy Iz J : Nat → K) (e : Nat
   let Kl := localStiff E G (A e) (Iy e) (Iz e) (J e) L
   transformed (transform12 (triad (nodes e) (nodes (e + 1)))) (permuted Kl)
 
+/-! ### the sparse coordinate list of `FEM.setup` / `assemble_CSC_K` (order of `k_rows`, `k_cols`, `k_data`) -/
+
+/-- a 6×6 block of coordinates, row-major -/
+def cooBlock (r0 c0 : Nat) (v : Nat → Nat → K) : List (Nat × Nat × K) :=
+  (List.range 6).flatMap fun a => (List.range 6).map fun b => (r0 + a, c0 + b, v a b)
+
+/-- `zip(k_rows, k_cols, k_data)`: blocks 1–5 and the two constraint blocks (`rows6/cols6` and transposed) -/
+def cooEntries (ny idx : Nat) (kloc : Nat → Nat → Nat → K) : List (Nat × Nat × K) :=
+  ((List.range (ny - 1)).flatMap fun e => cooBlock (6 * e) (6 * e + 6) (fun a b => kloc e a (6 + b)))
+  ++ ((List.range (ny - 1)).flatMap fun e => cooBlock (6 * e + 6) (6 * e) (fun a b => kloc e (6 + a) b))
+  ++ cooBlock 0 0 (fun a b => kloc 0 a b)
+  ++ cooBlock (6 * (ny - 1)) (6 * (ny - 1)) (fun a b => kloc (ny - 2) (6 + a) (6 + b))
+  ++ ((List.range (ny - 2)).flatMap fun e =>
+        cooBlock (6 * e + 6) (6 * e + 6) (fun a b => kloc e (6 + a) (6 + b) + kloc (e + 1) a b))
+  ++ ((List.range 6).map fun a => (6 * idx + a, 6 * ny + a, ((1000000000 : Nat) : K)))
+  ++ ((List.range 6).map fun a => (6 * ny + a, 6 * idx + a, ((1000000000 : Nat) : K)))
+
+/-- duplicates summed (what `coo_matrix(...).tocsc()` does): entry `(r, c)` of the matrix a coordinate list stands for -/
+def denseOf (l : List (Nat × Nat × K)) (r c : Nat) : K :=
+  (l.map fun t => if t.1 = r ∧ t.2.1 = c then t.2.2 else 0).sum
+
 end
 end FEM
 end OAS
